@@ -546,3 +546,43 @@ fn round_trip(a: &Port, b: &Port, env: &Env, problems: &mut Vec<String>) {
         Err(e) => problems.push(format!("survivor-port-broken: drain failed: {e}")),
     }
 }
+
+// ------------------------------------------------------------------------------------------
+// C07 cleaner leg: a process that tries to clean up every dead node it sees
+
+/// prints one line per dead node: `CLEAN <ok|error text>`, then `CLEANER-DONE dead=<n> remaining_dead=<n> alive=<n>`
+pub fn cleaner_main(env: &Env) -> i32 {
+    drop_privileges();
+    set_log_level(LogLevel::Fatal);
+    let cfg = config(env);
+    marker(77);
+    let mut views = Vec::new();
+    let listed = Node::<Svc>::list(&cfg, |s| {
+        if let NodeState::Dead(v) = s {
+            views.push(v);
+        }
+        CallbackProgression::Continue
+    });
+    if let Err(e) = listed {
+        println!("CLEANER-ERROR list {e:?}");
+    }
+    let n = views.len();
+    for v in views {
+        match v.try_remove_stale_resources() {
+            Ok(()) => println!("CLEAN ok"),
+            Err(e) => println!("CLEAN {e:?}"),
+        }
+    }
+    marker(78);
+    let (mut alive, mut dead) = (0, 0);
+    let _ = Node::<Svc>::list(&cfg, |s| {
+        match s {
+            NodeState::Alive(_) => alive += 1,
+            NodeState::Dead(_) => dead += 1,
+            _ => {}
+        }
+        CallbackProgression::Continue
+    });
+    println!("CLEANER-DONE dead={n} remaining_dead={dead} alive={alive}");
+    0
+}
